@@ -42,6 +42,41 @@ class ConcatenatedData(Concatenated, Data):
         super().__init__(entity_type, **kwargs)
 
     @property
+    def name(self) -> str:
+        """
+        :obj:`str` Name of the data. Renaming a stored data also renames its
+        concatenated arrays and the reference held by the parent object.
+        """
+        return self._name
+
+    @name.setter
+    def name(self, new_name: str):
+        new_name = self.fix_up_name(new_name)
+        old_name = getattr(self, "_name", None)
+
+        if not self.on_file or old_name is None or old_name == new_name:
+            self._name = new_name
+            self.workspace.update_attribute(self, "attributes")
+            return
+
+        parent_attr = self.concatenator.get_concatenated_attributes(self.parent.uid)
+        if f"Property:{new_name}" in parent_attr:
+            raise ValueError(
+                f"Data with name '{new_name}' already present "
+                f"on the object '{self.parent.name}'."
+            )
+
+        values = self.values
+        self.concatenator.update_array_attribute(self, old_name, remove=True)
+        parent_attr[f"Property:{new_name}"] = parent_attr.pop(
+            f"Property:{old_name}", as_str_if_uuid(self.uid)
+        )
+        self._name = new_name
+        self._values = values
+        self.workspace.update_attribute(self, "attributes")
+        self.concatenator.update_array_attribute(self, new_name)
+
+    @property
     def property_group(self) -> ConcatenatedPropertyGroup | None:
         """Get the property group containing the data interval."""
         if self.parent.property_groups is None:
